@@ -154,6 +154,8 @@ def real_pool_runs(n, seed):
     for i in range(n):
         spec = progen.gen_spec(rng, ['plain', 'switch', 'oneof', 'mixed'][i % 4], 3, 6, fail_p=0.0, retry_p=0.3,
                                hash_fail_p=0.25, modes=MODES)
+        if any(nd.get('is_rec') for nd in spec['nodes']):
+            continue        # bodies in real pools are stateless: they cannot ask for another iteration
         for nd in spec['nodes']:
             nd['delay'] = None if nd.get('delay') is None else 0
         # the module must be importable, with its bodies, in a pool worker process
